@@ -377,8 +377,15 @@ func accumulatorShape(rv *c09fn, v ssa.Value) (bool, string) {
 				shifted = x.X
 			}
 		case *ssa.UnOp:
-			if ia, ok := x.X.(*ssa.IndexAddr); ok && ia.X == ssa.Value(rv.fn.Params[0]) {
-				idx = ia.Index
+			// the byte read: an element of a window of the data parameter whose ABSOLUTE position
+			// in data is the index value itself (data[i], or s[i] for s = data[0:n])
+			if ia, ok := x.X.(*ssa.IndexAddr); ok {
+				for _, a := range rv.acc {
+					if a.in == ssa.Instruction(ia) && a.kind == "index" && a.w != nil && a.w.base == ssa.Value(rv.fn.Params[0]) &&
+						len(a.pos) == 1 && a.pos[0].eq(e.lin(ia.Index)) {
+						idx = ia.Index
+					}
+				}
 			}
 		}
 	}
@@ -389,26 +396,39 @@ func accumulatorShape(rv *c09fn, v ssa.Value) (bool, string) {
 			acc = ap
 		}
 	}
+	// the index is the loop's counter, evaluated once per round in the accumulator's block:
+	//   - i = φ(0, i+1)                          (`for i := 0; …; i++`, `for i := range n`)
+	//   - i = pre + 1 with pre = φ(−1, i)        (`for i, b := range s`: go/ssa advances the
+	//     pre-index at the loop's head, before the test)
+	// either way its values in successive rounds are 0, 1, 2, …
 	ip, isPhi := idx.(*ssa.Phi)
-	if shifted != ssa.Value(acc) || !isPhi || !isInduction(ip) || ip.Block() != acc.Block() {
-		return false, "step is not (result << 8) | data[i] over the loop counter"
-	}
-	// counter 0,1,2,… and the step executes exactly while i < info.count
 	okStart, okStep := false, false
-	for _, ed := range ip.Edges {
-		if c, ok := ed.(*ssa.Const); ok && constString(c) == "0" {
-			okStart = true
+	if ib, isBin := idx.(*ssa.BinOp); isBin && shifted == ssa.Value(acc) && acc == ph {
+		if !rangeIndexFromZero(ib) || ib.Block() != acc.Block() {
+			return false, "step is not (result << 8) | data[i] over the loop counter"
 		}
-		if b, ok := ed.(*ssa.BinOp); ok && b.Op.String() == "+" && b.X == ssa.Value(ip) {
-			if s, ok := e.lin(b.Y).isConst(); ok && s == 1 {
-				okStep = true
+		okStart, okStep = true, true // first round: −1 + 1 = 0; next round: i + 1
+	} else {
+		if shifted != ssa.Value(acc) || !isPhi || !isInduction(ip) || ip.Block() != acc.Block() {
+			return false, "step is not (result << 8) | data[i] over the loop counter"
+		}
+		// counter 0,1,2,… and the step executes exactly while i < info.count
+		for _, ed := range ip.Edges {
+			if c, ok := ed.(*ssa.Const); ok && constString(c) == "0" {
+				okStart = true
+			}
+			if b, ok := ed.(*ssa.BinOp); ok && b.Op.String() == "+" && b.X == ssa.Value(ip) {
+				if s, ok := e.lin(b.Y).isConst(); ok && s == 1 {
+					okStep = true
+				}
 			}
 		}
 	}
+	iLin := e.lin(idx)
 	cnt := countLeaf(e, rv.fn.Params[1])
 	body := step.Block()
 	facts := e.factsAt(body)
-	inBody := e.entails(cnt.plus(e.lin(ip), -1).addc(-1), facts) && !e.entails(cnt.plus(e.lin(ip), -1).addc(-2), facts)
+	inBody := e.entails(cnt.plus(iLin, -1).addc(-1), facts) && !e.entails(cnt.plus(iLin, -1).addc(-2), facts)
 	exit := false
 	if acc == ph {
 		// after the loop: i ≥ count
@@ -420,7 +440,7 @@ func accumulatorShape(rv *c09fn, v ssa.Value) (bool, string) {
 				}
 			}
 		}
-		exit = e.entails(e.lin(ip).plus(cnt, -1), after)
+		exit = e.entails(iLin.plus(cnt, -1), after)
 	} else {
 		// v's block is outside the loop; every edge into it either skips the loop because no
 		// iteration is due (value 0) or leaves it after the last iteration (value: the step)
@@ -498,9 +518,12 @@ func emitsIn(r *Run, mf *c09fn, label string) []emit {
 			if len(puts) == 1 && root != nil {
 				p := puts[0]
 				pc := p.in.(*ssa.Call)
-				k := bigEndianWidth[CalleeOf(pc)]
+				k, isPut := bigEndianWidth[CalleeOf(pc)]
+				if !isPut {
+					k = bigEndianAppend[CalleeOf(pc)] // AppendUintN(nil, x): buffer and fill in one (freshBigEndian)
+				}
 				em.val = r.D.D(pc.Call.Args[len(pc.Call.Args)-1])
-				em.ok = p.w.lo.eq(linConst(0)) && p.w.length().eq(linConst(k)) && w.hi.eq(linConst(k)) &&
+				em.ok = k > 0 && p.w.lo.eq(linConst(0)) && p.w.length().eq(linConst(k)) && w.hi.eq(linConst(k)) &&
 					(pc.Block() == call.Block() && instrIndex(pc) < instrIndex(call) || pc.Block() != call.Block() && pc.Block().Dominates(call.Block()))
 			}
 		} else {
@@ -546,6 +569,49 @@ func (c *c09fn) counterCovers(ph *ssa.Phi, at *ssa.BasicBlock, n lin) bool {
 	return e.entails(e.lin(ph), facts) && e.entails(room, facts) && !e.entails(room.addc(-1), facts)
 }
 
+// counterCoversV is counterCovers for an index given as a value: the counter φ itself, or the
+// index of a range loop over a slice or an integer as go/ssa lowers it when the test comes first —
+// idx = pre + 1 with pre = φ(−1, idx), advanced at the loop's head.  Its values in successive
+// rounds are 0, 1, 2, … as well; the block `at` must execute exactly for the values below n.
+func (c *c09fn) counterCoversV(idx ssa.Value, at *ssa.BasicBlock, n lin) bool {
+	if ph, ok := idx.(*ssa.Phi); ok {
+		return c.counterCovers(ph, at, n)
+	}
+	if !rangeIndexFromZero(idx) {
+		return false
+	}
+	e := c.e
+	pre := idx.(*ssa.BinOp).X.(*ssa.Phi)
+	if !(pre.Block().Dominates(at) && pre.Block() != at) {
+		return false // `at` is not inside the loop's body
+	}
+	facts := e.factsAt(at)
+	room := n.plus(e.lin(idx), -1).addc(-1) // n − i − 1
+	return e.entails(e.lin(idx), facts) && e.entails(room, facts) && !e.entails(room.addc(-1), facts)
+}
+
+// rangeIndexFromZero: idx = pre + 1 where pre = φ(−1, idx) is evaluated in idx's own block — the
+// index of a range loop: 0 in the first round, one more in each further round.
+func rangeIndexFromZero(idx ssa.Value) bool {
+	ib, ok := idx.(*ssa.BinOp)
+	if !ok || ib.Op != token.ADD || !isConstInt(ib.Y, 1) {
+		return false
+	}
+	pre, ok := ib.X.(*ssa.Phi)
+	if !ok || !isRangePre(pre) || pre.Block() != ib.Block() || len(pre.Edges) != 2 {
+		return false
+	}
+	start, step := false, false
+	for _, ed := range pre.Edges {
+		if isConstInt(ed, -1) {
+			start = true
+		} else if ed == ssa.Value(ib) {
+			step = true
+		}
+	}
+	return start && step
+}
+
 // c09ByteFill: the buffer behind the write is filled by buf[i] = v.Index(i).Uint() for i < v.Len().
 func c09ByteFill(r *Run, mf *c09fn, em emit) bool {
 	if em.w == nil {
@@ -565,7 +631,7 @@ func c09ByteFill(r *Run, mf *c09fn, em emit) bool {
 					if uc, ok := src.(*ssa.Call); ok && CalleeOf(uc) == "(reflect.Value).Uint" {
 						if ic, ok := uc.Call.Args[0].(*ssa.Call); ok && CalleeOf(ic) == "(reflect.Value).Index" && ic.Call.Args[0] == ssa.Value(mf.fn.Params[1]) && ic.Call.Args[1] == ia.Index {
 							// … for every i below the length of what is written
-							if ph, ok := ia.Index.(*ssa.Phi); ok && mf.counterCovers(ph, st.Block(), em.n) {
+							if mf.counterCoversV(ia.Index, st.Block(), em.n) {
 								n++
 							}
 						}
